@@ -39,6 +39,10 @@ func (sc *SchemaCache) Schema(src protoreflect.MessageDescriptor) (RootSchema, e
 		return built.To, nil
 	}
 
+	// A failed build must not leave placeholders (its own, or those of the
+	// schemas it reached) behind: they would be returned as built schemas later.
+	before := sc.schemaNames()
+
 	placeholder := &RefSchema{
 		Package: schemaPackage,
 		Schema:  nameInPackage,
@@ -54,12 +58,37 @@ func (sc *SchemaCache) Schema(src protoreflect.MessageDescriptor) (RootSchema, e
 		placeholder.To, err = schemaPackage.buildObjectSchema(src, msgOptions.GetObject())
 	}
 	if err != nil {
+		sc.rollback(before)
 		return nil, err
 	}
 	if placeholder.To.FullName() != placeholder.FullName() {
+		sc.rollback(before)
 		return nil, fmt.Errorf("schema %q has wrong name %q", placeholder.FullName(), placeholder.To.FullName())
 	}
 	return placeholder.To, nil
+}
+
+func (sc *SchemaCache) schemaNames() map[string]map[string]struct{} {
+	names := make(map[string]map[string]struct{}, len(sc.packages))
+	for pkgName, pkg := range sc.packages {
+		schemas := make(map[string]struct{}, len(pkg.Schemas))
+		for name := range pkg.Schemas {
+			schemas[name] = struct{}{}
+		}
+		names[pkgName] = schemas
+	}
+	return names
+}
+
+// rollback removes every schema which was not present in before.
+func (sc *SchemaCache) rollback(before map[string]map[string]struct{}) {
+	for pkgName, pkg := range sc.packages {
+		for name := range pkg.Schemas {
+			if _, ok := before[pkgName][name]; !ok {
+				delete(pkg.Schemas, name)
+			}
+		}
+	}
 }
 
 func (sc *SchemaCache) refTo(pkg, schema string) (*RefSchema, bool) {
